@@ -1021,6 +1021,53 @@ func runC12(cx *CheckCtx) {
 		}
 		cx.decide(okS, "parent-conflict", "nns.getParentConflictingRecord/scan", "scans all records stored under the enclosing name", "the conflict check does not scan the records of the directly enclosing name", w.pos(fn.Pos()))
 	}
+	// ---- D7 records become unreachable when the name expires: a read-only getter scans the
+	// records of token T only with "now < expiration of T" and "no enclosing name expired" established
+	{
+		type root struct {
+			name string
+			fn   *ssa.Function
+		}
+		var roots []root
+		for _, g := range []string{"GetRecords", "GetAllRecords"} {
+			if m := cx.method("nns", g); m != nil {
+				roots = append(roots, root{"nns." + g, m.Fn})
+			}
+		}
+		if resolveFn != nil {
+			roots = append(roots, root{"nns.resolve", resolveFn})
+		}
+		pexp := fq(nnsParentExpiredFn(cx))
+		nScan := 0
+		for _, r := range roots {
+			a := cx.analyze(&Query{Name: "std", Root: r.fn})
+			tb := a.tb
+			for _, s := range a.Sites(func(s *Site) bool { return s.Callee == "storage.Find" && keyFamily(s.Args[1]) == pfxRecord }) {
+				ps := keyParts(s.Args[1])
+				if len(ps) < 2 || ripemdArg(ps[1]) == nil {
+					continue
+				}
+				nScan++
+				T := a.Canon(s.In, ripemdArg(ps[1]))
+				alive, parents := false, false
+				for _, f := range a.unitFacts(s.In) {
+					if f.kind == KLt && f.pos && isCall(f.A, "runtime.GetTime") && f.B.Op == "field" && f.B.Name == "Expiration" {
+						if k, isRec := recordOf(tb, f.B.Args[0]); isRec {
+							if kp := keyParts(k); len(kp) == 2 && kp[0] == tb.constBytes(pfxName) && ripemdArg(kp[1]) != nil && a.Canon(s.In, ripemdArg(kp[1])) == T {
+								alive = true
+							}
+						}
+					}
+					if f.kind == KB && !f.pos && f.A.Op == "ret" && f.A.Name == pexp {
+						parents = true
+					}
+				}
+				cx.decide(alive && parents, "record-getter-alive", r.name+"/"+siteConstruct(a, s), "records of "+T.pretty()+" are scanned only with its own and its parents' liveness established", r.name+" reads the records of "+T.pretty()+" without establishing now < its expiration (and live parents): records of an expired name stay reachable", s.Where(w))
+			}
+		}
+		cx.count("getter_record_scans", nScan)
+		cx.floor("getter_record_scans", 3)
+	}
 	// ---- D6 scans are over fixed-width prefixes of the record family
 	if c := cx.contract("nns"); c != nil {
 		n := 0
